@@ -574,11 +574,22 @@ def SecParse(inp, tab, ev):
 
 # ----------------------------------------------------------- C05 addresses
 def emitted_address_oracle(tab, s):
-    """Hash256 of the body of an emitted Base58Check string (for Classify)"""
+    """Hash256 of the body of an emitted Base58Check string (for Classify), and of every maximal
+    Base58 run of WIF / extended-key length inside it (for HidesPrivateKey)"""
     if isinstance(s, str):
         body = R.b58check_body(s)
         if body is not None:
             tab.hash256(body)
+        run = ""
+        for ch in s + "\0":
+            if ch in R.B58:
+                run += ch
+            else:
+                if len(run) in (51, 52, 111) and run != s:
+                    b = R.b58check_body(run)
+                    if b is not None:
+                        tab.hash256(b)
+                run = ""
 
 
 @act
